@@ -127,7 +127,9 @@ fn run_op(op: &Op, inject: &[Hex]) -> Result<(BigUint, Vec<BigUint>), Fail> {
                 let (da, db) = (sm2_key(op.seed % 5), sm2_key(op.seed % 5 + 7));
                 let (pa, pb) = (lib_pk(&r2::g_mul(&da))?, lib_pk(&r2::g_mul(&db))?);
                 let (ska, skb) = (lib_sk(&da)?, lib_sk(&db)?);
-                let mut alice = Exchange::new(16, Some("alice"), &pa, &ska, Some("bob"), &pb).map_err(|e| format!("{:?}", e))?;
+                // the session-key length is one more input of the invocation: the scalar may not depend on it
+                let klen = [16usize, 1, 2, 8, 15, 17, 32, 48][(op.seed / 5 % 8) as usize];
+                let mut alice = Exchange::new(klen, Some("alice"), &pa, &ska, Some("bob"), &pb).map_err(|e| format!("{:?}", e))?;
                 let point = if op.kind == Kind::Sm2Exchange1 {
                     alice.exchange_1().map_err(|e| format!("{:?}", e))?
                 } else {
@@ -136,7 +138,7 @@ fn run_op(op: &Op, inject: &[Hex]) -> Result<(BigUint, Vec<BigUint>), Fail> {
                     let saved = gm_sm2::verif_hooks::candidates_left();
                     let _ = (rec, saved);
                     let ra = lib_point(&r2::g_mul(&BigUint::from(op.seed | 1)), &BigUint::one());
-                    let mut bob = Exchange::new(16, Some("bob"), &pb, &skb, Some("alice"), &pa).map_err(|e| format!("{:?}", e))?;
+                    let mut bob = Exchange::new(klen, Some("bob"), &pb, &skb, Some("alice"), &pa).map_err(|e| format!("{:?}", e))?;
                     gm_sm2::verif_hooks::start_recording();
                     bob.exchange_2(&ra).map_err(|e| format!("{:?}", e))?.0
                 };
@@ -196,7 +198,7 @@ fn run_op(op: &Op, inject: &[Hex]) -> Result<(BigUint, Vec<BigUint>), Fail> {
                         let idb = b"responder".to_vec();
                         let kb = m.lib.extract_exch_key(&idb).ok_or("no key")?;
                         let ra = lib_g1(&r9::p1_mul(&BigUint::from(op.seed | 1)), &BigUint::one());
-                        (gm_sm9::key::exch_step_1b(&m.lib, &id, &idb, &kb, &ra, 16).map_err(|e| format!("{:?}", e))?.0, 2)
+                        (gm_sm9::key::exch_step_1b(&m.lib, &id, &idb, &kb, &ra, [16usize, 1, 2, 8, 15, 17, 32, 48][(op.seed / 5 % 8) as usize]).map_err(|e| format!("{:?}", e))?.0, 2)
                     }
                 };
                 let rec = gm_sm9::verif_hooks::take_recorded();
@@ -264,7 +266,8 @@ fn check_reuse(c: &Reuse) -> CaseResult {
     let mk = |e: String| Fail { key: "harness: key construction".into(), detail: e };
     let (pa, pb) = (lib_pk(&r2::g_mul(&da)).map_err(mk)?, lib_pk(&r2::g_mul(&db)).map_err(mk)?);
     let ska = lib_sk(&da).map_err(mk)?;
-    let mut ex = Exchange::new(16, Some("alice"), &pa, &ska, Some("bob"), &pb).map_err(|e| Fail { key: "entry=Exchange::new input=valid outcome=err".into(), detail: format!("{:?}", e) })?;
+    let klen = [16usize, 1, 2, 8, 15, 17, 32, 48][(c.seed / 5 % 8) as usize];
+    let mut ex = Exchange::new(klen, Some("alice"), &pa, &ska, Some("bob"), &pb).map_err(|e| Fail { key: "entry=Exchange::new input=valid outcome=err".into(), detail: format!("{:?}", e) })?;
     let mut used: Vec<BigUint> = Vec::new();
     for (i, st) in c.steps.iter().enumerate() {
         gm_sm2::verif_hooks::start_recording();
